@@ -511,6 +511,20 @@ func c17gen(c *h.Ctx, yield func(*h.Case)) {
 			"c17 set c1/aa -",
 			"c17 offer 1 1", "c17 offer 2 2",
 			"c17 get c1/aa", "c17 get c2/aa")
+		// set ids derived from 32 bytes and more (the documented use: a skipchain id): the same
+		// bytes under two services, and bytes that only differ after the 32nd
+		long := strings.Repeat("ab", 32)
+		emit("corpus-long-setid-bytes",
+			"c17 open "+tr,
+			"c17 set c1/"+long+" 1",
+			"c17 set c2/"+long+" 2",
+			"c17 get c1/"+long, "c17 get c2/"+long,
+			"c17 set c1/"+long+"01 3",
+			"c17 get c1/"+long, "c17 get c1/"+long+"01", "c17 get c2/"+long+"01",
+			"c17 offer 1 1", "c17 offer 2 2", "c17 offer 3 3", "c17 offer 4 4",
+			"c17 set c2/"+long+" -",
+			"c17 offer 1 5", "c17 offer 2 6",
+			"c17 get r"+long, "c17 get r"+long+"01")
 		emit("corpus-not-retroactive-and-dial",
 			"c17 open "+tr,
 			"c17 set r01 1",
@@ -535,6 +549,12 @@ func c17gen(c *h.Ctx, yield func(*h.Case)) {
 		var sets []string
 		for j := 0; j < nsets; j++ {
 			d := fmt.Sprintf("%02x", 1+r.Intn(nsets)) // the same bytes may name sets of both services and of the router
+			switch r.Intn(4) {
+			case 0: // 32 bytes and more, as a skipchain id would be
+				d = strings.Repeat(d, 32+r.Intn(3))
+			case 1: // long, and only the tail tells it from its siblings
+				d = strings.Repeat("5a", 32) + d
+			}
 			if r.Intn(8) == 0 {
 				d += "00" // a router-level id that collides with its unpadded twin
 			}
